@@ -270,6 +270,33 @@ def setproj(t, key, nv, enums):
     return ("upd", t, key, nv)
 
 
+def erase_seeds(t):
+    if not isinstance(t, tuple) or not t:
+        return t
+    if t[0] == "sym":
+        return ("c", "other", "seedless") if t[1].startswith("seed!") else t
+    if t[0] == "c":
+        return t
+    return tuple(erase_seeds(x) if isinstance(x, tuple) else x for x in t)
+
+
+def mentions_seed(t):
+    for x in subterms(t):
+        if x[0] == "sym" and x[1].startswith("seed!"):
+            return True
+    return False
+
+
+def subst_seed(t, suffix):
+    if not isinstance(t, tuple) or not t:
+        return t
+    if t[0] == "sym":
+        return ("sym", t[1] + suffix) if t[1].startswith("seed!") else t
+    if t[0] == "c":
+        return t
+    return tuple(subst_seed(x, suffix) if isinstance(x, tuple) else x for x in t)
+
+
 def subterms(t):
     """All subterms (pre-order), tuples only."""
     stack = [t]
@@ -427,7 +454,8 @@ DIVERGE_PANIC = re.compile(r"(panic|unwrap_failed|expect_failed|assert_failed|un
 class Executor:
     """Symbolic executor over one or more parsed MIR modules."""
 
-    def __init__(self, modules, enums=None, inline=None, summaries=True, max_paths=20000, max_inline_depth=6):
+    def __init__(self, modules, enums=None, inline=None, summaries=True, max_paths=20000, max_inline_depth=6,
+                 seeded=None, seed_insensitive=None):
         self.modules = modules if isinstance(modules, (list, tuple)) else [modules]
         self.enums = enums if isinstance(enums, Enums) else Enums(enums)
         self.inline = [re.compile(x) for x in (inline or [])]
@@ -444,6 +472,11 @@ class Executor:
         self._resolve_cache = {}
         self._promoted_cache = {}
         self._inline_stack = []
+        # callees whose result may depend on a hidden seed (hash iteration order, clock, ...): they get an
+        # extra ('sym', 'seed!..') argument; `seed_insensitive` callees do not propagate it
+        self.seeded = seeded
+        self.seed_insensitive = seed_insensitive
+        self.seed_sites = []
 
     # ---- symbol naming ---------------------------------------------------------
     def fsym(self, callee):
@@ -1135,6 +1168,11 @@ class Executor:
             # a pointer whose pointee was written/havocked since: pass the current pointee value
             xargs = tuple(("addr", self.export(st, st.heap[a])) if (a[0] in ("sym", "app", "fld", "out") and a in st.heap)
                           else self.export(st, a) for a in args)
+            if self.seed_insensitive is not None and self.seed_insensitive(callee, fs):
+                xargs = tuple(erase_seeds(a) for a in xargs)
+            if self.seeded is not None and self.seeded(callee, fs, xargs):
+                xargs = xargs + (("sym", "seed!%s" % fs),)
+                self.seed_sites.append((func.short, fs))
             res = ("app", fs, xargs)
             # havoc pointees of &mut arguments
             for i, (a, op) in enumerate(zip(args, argops)):
